@@ -29,14 +29,13 @@ def parseVal (s : String) : Nat :=
   else match s.toNat? with | some n => n | none => 0
 
 /-- words the Core model does not cover -/
-def filteredWord (w : String) : Bool :=
-  w == "mxmgr" || w == "mxwtf" || w == "epoch" || w.startsWith "tok."
+def filteredWord (_w : String) : Bool := false
 
 def parseKind (k what : String) : Option Kind :=
   match k with
   | "load" => some .load | "store" => some .store | "cas" => some .cas | "casw" => some .casw
   | "fadd" => some .fadd | "fsub" => some .fsub | "for" => some .for_ | "fand" => some .fand
-  | "lock" => some .lock | "cvwait" => some .cvwait | "cvnotify" => some .cvnotify
+  | "lock" => some .lock | "trylock" => some .trylock | "cvwait" => some .cvwait | "cvnotify" => some .cvnotify
   | "yield" => some .yield_ | "sleep" => some .sleep
   | "tau" => match what with
       | "write" => some .tauWrite | "read" => some .tauRead | "clone_mid" => some .tauClone
@@ -47,6 +46,8 @@ def parseWord (k : Kind) (w : String) : Word :=
   if w == "head" then .head else if w == "tc" then .tc else if w == "writers" then .writers
   else if w == "readers" then .readers else if w == "signal" then .signal
   else if w == "cwait" then .cwait else if w == "pwait" then .pwait
+  else if w == "epoch" then .epoch else if w == "mxmgr" then .mxmgr else if w == "mxwtf" then .mxwtf
+  else if w.startsWith "tok." then .tok (afterDot w)
   else if w.startsWith "tag." then .tag (afterDot w)
   else if w.startsWith "ref." then .ref (afterDot w)
   else if w.startsWith "val." then .val (afterDot w)
@@ -212,8 +213,7 @@ def acceptLine (a : ASt) (n : Nat) (line : String) : Except String ASt :=
       if a.dead t then .ok a else
       if a.skip t || !(a.inCall t) then .ok { a with skipped := a.skipped + 1 } else
       if k == "fence" then .ok { a with fences := upd a.fences t (a.fences t ++ [parseOrd o1]) } else
-      if filteredWord w || k == "trylock" then .ok { a with skipped := a.skipped + 1 } else
-      if w == "signal" && (k == "fand" || (k == "for" && av == "1")) then .ok { a with skipped := a.skipped + 1 } else
+      if filteredWord w then .ok { a with skipped := a.skipped + 1 } else
       match parseKind k what with
       | none => fail n s!"unknown event kind {k} {what}"
       | some kind =>
@@ -235,6 +235,7 @@ def acceptLine (a : ASt) (n : Nat) (line : String) : Except String ASt :=
         let wordOk := if kind == .tauDrop then true else o.word == actual.word
         let opsOk := match kind with
           | .tauWrite | .tauRead | .tauClone | .tauView | .tauDrop | .lock | .cvnotify | .yield_ | .cvwait => true
+          | .trylock => o.ok == actual.ok
           | .sleep => true
           | .load => o.res == actual.res
           | .store => o.a == actual.a
